@@ -34,7 +34,12 @@ void h_parse(void)
 		uint8_t * s = malloc(n + 1);	/* exact-size NUL-terminated string: any over-read is a bounds violation (C15) */
 		if (s == NULL) continue;
 		int nonul = 1;
-		for (size_t i = 0; i < n; i++) { s[i] = nd_u8(); if (s[i] == 0) nonul = 0; }
+		for (size_t i = 0; i < n; i++) {
+			s[i] = nd_u8(); if (s[i] == 0) nonul = 0;
+#ifdef DIGITS_ONLY	/* long numerals: only digit strings (optionally one suffix letter at the end) -- the UINT64_MAX/10 and last-digit overflow edges */
+			if (!((s[i] >= '0' && s[i] <= '9') || (i == n - 1 && (s[i] == 'k' || s[i] == 'B')))) nonul = 0;
+#endif
+		}
 		s[n] = 0;
 		if (nonul) {
 			uint64_t got = 0x5555, want = 0;
